@@ -5,7 +5,7 @@ CFG = {
         'bmtree.IndexToPath/order': 'bmtree.IndexToPath on two indices of one height, numeric comparison of the results',
         'bmtree.AllPaths/full': 'bmtree.AllPaths(2^(h+1)-1, 0, 1<<63) and [bmtree.IndexToPath(h, i)] for every index',
         'bmtree.AllPaths/scribble': 'bmtree.AllPaths(2^(hs+1)-1, 0, 1<<63), the caller overwrites the returned slice, then bmtree.IndexToPath(h, i) for every index',
-        'bmtree.IndexToPath/session': 'consecutive bmtree.IndexToPath calls on one height',
+        'bmtree.IndexToPath/session': 'consecutive bmtree.IndexToPath calls on one height; a session of >= 64 calls is then issued again by 6 goroutines at once (4 rounds, lockstep and free-running) and the first walk that differs from the lone one is the observation',
         'bmtree.PathToIndex/then-IndexToPath': 'bmtree.PathToIndexLoose / PathToIndex on any level mask, then bmtree.IndexToPath at the returned positions and their neighbours',
         'bmtree.Height/full': 'bmtree.Height(2^(h+1)-1)',
         'bmtree.PathToIndexLoose/full': 'bmtree.PathToIndexLoose(2^(h+1)-1, NewPath(node)), then bmtree.IndexToPath on its result',
@@ -21,7 +21,7 @@ CFG = {
          'PathToIndexLoose on the full tree for every node the inverse direction uses. '
          'History ops (generated first): the AllPaths listing of the full bitmap of height 0..8 overwritten in place by the caller, then '
          'IndexToPath listed for every index of heights 0..7; sessions of consecutive IndexToPath calls whose indices differ by multiples of '
-         '2^k (k = 20..30, heights 21..30, both orders) and i j i j sessions; PathToIndexLoose/PathToIndex on every level mask in [1,2^7) x '
+         '2^k (k = 20..30, heights 21..30, both orders) and i j i j sessions; scans of 64..3000 consecutive indices at heights 5..24 (first, last, random start), repeated by 6 concurrent callers; PathToIndexLoose/PathToIndex on every level mask in [1,2^7) x '
          'every node and on random full / leaf-only / partial masks of heights 5..30, then IndexToPath at pos-1, pos, pos+1. '
          'A case is non-trivial when the node is not the root; shape key = (height bucket, shortcut not applicable/not taken/levels fixed, '
          'levels walked by the loop, loop exit: index 0 or table with 1..3 levels, all-left/all-right/mixed path); distinct = distinct (op,args)',
